@@ -2,7 +2,7 @@
 # tools/seeded_matrix.sh [ids...]  -- applies every kept seeded change to a scratch worktree of /repo HEAD and runs
 # the QUICK tier of the check(s) named for it; writes seeded/MATRIX.md (id, check, verdict, violating classes).
 cd "$(dirname "$0")/.."
-declare -A ALT=( [C11-c]="C10 C11" [C11-e]="C10" [C13-d]="C19" [C06-c]="C09" [C04-c]="C15" [C01-e]="C11" [C16-e]="C03" [C01-g]="C15 C11" [C11-g]="C09" [C18-g]="C18 C19" )
+declare -A ALT=( [C11-c]="C10 C11" [C11-e]="C10" [C13-d]="C19" [C06-c]="C09" [C04-c]="C15" [C01-e]="C11" [C16-e]="C03" [C01-g]="C15 C11" [C11-g]="C09" [C18-g]="C18 C19" [C04-h]="C15" [C06-h]="C06 C09" )
 OUT=seeded/MATRIX.md
 {
 echo "# Detection matrix (quick tier, seed 1) at /repo $(git -C /repo rev-parse --short HEAD), /verif $(git rev-parse --short HEAD)"
